@@ -549,4 +549,4 @@ def run(ctx):
             'the language meaning of the token; comparisons are decided by '
             'abstractly evaluating _exec_cmp followed by the comparison '
             'handler on the three possible orderings. Does NOT decide '
-            'behavioural equivalence of compiled programs.')
+            'behavioural equivalence of compiled programs. Also decided by abstract runs: EXIT FOR/DO target the innermost loop of their kind; a comparison uses the arithmetic common type of its operands; RngDevice._exec_rnd remembers the number it delivers.')
